@@ -1099,3 +1099,56 @@ Example thomas_finite_answer_hides_overflow_example :
   let t := @mkT AF [(-0x1p1023)%float] [1%float; 0x1p1023%float] [1%float] 2 in
   tsolve (A := AF) t [1%float; 1%float] = Ok [1%float; 0%float] /\ tbeta t 1 = infinity.
 Proof. exact thomas_finite_answer_hides_overflow. Qed.
+
+(* ---- round 7 (linearity): the tridiagonal product is the dense twin's linear map.  Stated with the library's own
+   guarded vector operations (vadd / vsub / vscale / dot of Model/Vector.v), for every n >= 1 and any ring:
+   additivity, homogeneity, zero, and the adjoint identity <y, T x> = <T^T y, x> linking the product with transpose
+   (exchange of the sub- and super-diagonals). *)
+From OV Require Proofs.TridiagLinear.
+
+Theorem tridiag_mul_add : forall (A : Arith), RingLaws A -> forall (t : tridiag A) (x y : list A),
+  wfT t -> 1 <= tn t -> length x = tn t -> length y = tn t ->
+  exists xy u v uv, vadd x y = Ok xy /\ tmul t x = Ok u /\ tmul t y = Ok v /\ vadd u v = Ok uv /\ tmul t xy = Ok uv.
+Proof. intros A RL t x y. exact (TridiagLinear.tmul_add_lemma RL t x y). Qed.
+Check tridiag_mul_add : forall (A : Arith), RingLaws A -> forall (t : tridiag A) (x y : list A),
+  wfT t -> 1 <= tn t -> length x = tn t -> length y = tn t ->
+  exists xy u v uv, vadd x y = Ok xy /\ tmul t x = Ok u /\ tmul t y = Ok v /\ vadd u v = Ok uv /\ tmul t xy = Ok uv.
+Print Assumptions tridiag_mul_add.
+
+Theorem tridiag_mul_sub : forall (A : Arith), RingLaws A -> forall (t : tridiag A) (x y : list A),
+  wfT t -> 1 <= tn t -> length x = tn t -> length y = tn t ->
+  exists xy u v uv, vsub x y = Ok xy /\ tmul t x = Ok u /\ tmul t y = Ok v /\ vsub u v = Ok uv /\ tmul t xy = Ok uv.
+Proof. intros A RL t x y. exact (TridiagLinear.tmul_sub_lemma RL t x y). Qed.
+Check tridiag_mul_sub : forall (A : Arith), RingLaws A -> forall (t : tridiag A) (x y : list A),
+  wfT t -> 1 <= tn t -> length x = tn t -> length y = tn t ->
+  exists xy u v uv, vsub x y = Ok xy /\ tmul t x = Ok u /\ tmul t y = Ok v /\ vsub u v = Ok uv /\ tmul t xy = Ok uv.
+Print Assumptions tridiag_mul_sub.
+
+Theorem tridiag_mul_scale_vec : forall (A : Arith), RingLaws A -> forall (t : tridiag A) (x : list A) (a : A),
+  wfT t -> 1 <= tn t -> length x = tn t ->
+  exists u, tmul t x = Ok u /\ tmul t (vscale x a) = Ok (vscale u a).
+Proof. intros A RL t x a. exact (TridiagLinear.tmul_scale_vec_lemma RL t x a). Qed.
+Check tridiag_mul_scale_vec : forall (A : Arith), RingLaws A -> forall (t : tridiag A) (x : list A) (a : A),
+  wfT t -> 1 <= tn t -> length x = tn t ->
+  exists u, tmul t x = Ok u /\ tmul t (vscale x a) = Ok (vscale u a).
+Print Assumptions tridiag_mul_scale_vec.
+
+Theorem tridiag_mul_zero : forall (A : Arith), RingLaws A -> forall (t : tridiag A), wfT t -> 1 <= tn t ->
+  tmul t (repeat (@Arith.zero A) (tn t)) = Ok (repeat (@Arith.zero A) (tn t)).
+Proof. intros A RL t. exact (TridiagLinear.tmul_zero_lemma RL t). Qed.
+Check tridiag_mul_zero : forall (A : Arith), RingLaws A -> forall (t : tridiag A), wfT t -> 1 <= tn t ->
+  tmul t (repeat (@Arith.zero A) (tn t)) = Ok (repeat (@Arith.zero A) (tn t)).
+Print Assumptions tridiag_mul_zero.
+
+Theorem tridiag_mul_adjoint : forall (A : Arith), RingLaws A -> forall (t : tridiag A) (x y : list A),
+  wfT t -> 1 <= tn t -> length x = tn t -> length y = tn t ->
+  exists u w d, tmul t x = Ok u /\ tmul (ttranspose t) y = Ok w /\ dot y u = Ok d /\ dot w x = Ok d.
+Proof. intros A RL t x y. exact (TridiagLinear.tmul_adjoint_lemma RL t x y). Qed.
+Check tridiag_mul_adjoint : forall (A : Arith), RingLaws A -> forall (t : tridiag A) (x y : list A),
+  wfT t -> 1 <= tn t -> length x = tn t -> length y = tn t ->
+  exists u w d, tmul t x = Ok u /\ tmul (ttranspose t) y = Ok w /\ dot y u = Ok d /\ dot w x = Ok d.
+Print Assumptions tridiag_mul_adjoint.
+
+Example tridiag_mul_adjoint_nonvacuous :
+  wfT ex3 /\ 1 <= tn ex3 /\ length ([q 1 1; q (-1) 2; q 2 1] : list AQ) = tn ex3 /\ length ([q 3 1; q 0 1; q (-2) 5] : list AQ) = tn ex3.
+Proof. unfold wfT; cbn; repeat split; auto. Qed.
